@@ -585,10 +585,16 @@ func sessionChargingReservation(
 		case charging_datatype.REQ_SUBTYPE_RESERVE:
 			var requestedQuota uint64
 
+			// A usage report without requestedUnit (e.g. a final report) asks for no further quota
+			var requestedVolume uint32
+			if unitUsage.RequestedUnit != nil {
+				requestedVolume = uint32(unitUsage.RequestedUnit.TotalVolume)
+			}
+
 			ue.UnitCost[rg] = getUnitCost(ue, rg, sur)
 
 			usedQuota := uint64(totalUsedUnit * ue.UnitCost[rg])
-			requestedQuota = uint64(uint32(unitUsage.RequestedUnit.TotalVolume) * ue.UnitCost[rg])
+			requestedQuota = uint64(requestedVolume * ue.UnitCost[rg])
 			ue.ReservedQuota[rg] -= int64(usedQuota)
 			// Top the reservation up whenever it does not cover the requested quota
 			NeedReserveQuota := ue.ReservedQuota[rg] < int64(requestedQuota)
@@ -646,7 +652,7 @@ func sessionChargingReservation(
 
 			ue.UnitCost[rg] = getUnitCost(ue, rg, sur)
 
-			grantedUnit := min(uint32(serviceUsageRsp.ServiceRating.AllowedUnits), uint32(unitUsage.RequestedUnit.TotalVolume))
+			grantedUnit := min(uint32(serviceUsageRsp.ServiceRating.AllowedUnits), requestedVolume)
 
 			if ue.RatingType[rg] == charging_datatype.REQ_SUBTYPE_RESERVE {
 				unitInformation.Triggers = append(unitInformation.Triggers,
